@@ -102,7 +102,9 @@ def error_contracts():
              "fail_iff_policy": "C05: 'is_valid becomes False iff fail'; C04: 'once False it never returns to True'",
              "stop_iff_policy": "C05: 'the run stops at that line iff stop'",
              "print_iff_policy": "C05: 'the message is sent to the printers iff print'"},
-        assumptions=["the ErrorCommsManager's policy snapshot equals the policy passed in (both come from config.csvpath_errors_policy)",
+        assumptions=["the requires 'the ErrorCommsManager's policy snapshot equals the policy passed in' is no longer assumed: it is proved at the call site in "
+                     "ErrorHandler.handle_error[for_a_csvpath], whose own requires is proved where Expression.handle_errors_if[body] makes the handler and calls it "
+                     "(constructors of ErrorHandler / ErrorCommsManager under contract); still assumed: a csvpath HAS a config object (CsvPath.config creates one lazily)",
                      "the handler's _csvpath and its ErrorCommsManager's _csvpath are treated as separate objects: _handle_if writes nothing the manager reads (frame-checked)"],
         **common))
     return cs
@@ -113,7 +115,74 @@ def contracts():
     from . import core, control
     extra = core.select(core.contracts(), ("Matcher.matches",))
     from . import C18
-    return error_contracts() + extra + control.expression_matches() + control.interfaces() + clear_errors_contracts() + C18.build_contract()
+    return error_contracts() + extra + control.expression_matches() + control.interfaces() + clear_errors_contracts() + C18.build_contract() + handler_chain_contracts()
+
+
+def handler_chain_contracts():
+    """the policy an ErrorHandler acts on is the csvpath's configured policy at the time the handler is made: constructors and handle_error under
+    contract, so that the requires of _handle_if ('the manager's policy snapshot is the policy passed in') is proved at its call site"""
+    cf = {**CLASS_FIELDS, "CsvPath": {**CLASS_FIELDS["CsvPath"], "_config": "obj:Config"}, "Config": {"_csvpath_errors_policy": "list[str]"},
+          "ErrorHandler": {"_csvpath": "obj:CsvPath", "_csvpaths": "none", "_ecm": "obj:ErrorCommsManager", "_error_collector": "obj:CsvPath", "_logger": "val"}}
+    POL = "csvpath._config._csvpath_errors_policy"
+    inl = ["CsvPath.config", "Config.csvpath_errors_policy"]
+    cs = []
+    cs.append(Contract(
+        target=f"{ERR}::ErrorCommsManager.__init__", variant="for_a_csvpath", types={"csvpath": "obj:CsvPath", "csvpaths": "none"},
+        modifies=["self._csvpath", "self._policy"],
+        ensures={"acts_for_that_csvpath": "self._csvpath is csvpath", "takes_the_configured_policy": f"self._policy == {POL}"},
+        inline=inl, class_fields=cf, macros=MACROS, returns="none", native={"skip": True},
+        property_clauses={"takes_the_configured_policy": "C05"}))
+    cs.append(Contract(
+        target=f"{ERR}::ErrorHandler.__init__", variant="for_a_csvpath", types={"csvpath": "obj:CsvPath", "csvpaths": "none", "error_collector": "obj:CsvPath"},
+        modifies=["self._csvpath", "self._csvpaths", "self._error_collector", "self._ecm", "self._logger"],
+        ensures={"handles_for_that_csvpath": "self._csvpath is csvpath", "and_for_no_csvpaths": "self._csvpaths is None", "its_manager_acts_for_that_csvpath": "self._ecm._csvpath is csvpath",
+                 "collects_into_the_given_collector": "self._error_collector is error_collector",
+                 "its_manager_holds_the_configured_policy": f"self._ecm._policy == {POL}"},
+        callee_variants={"ErrorCommsManager.__init__": "for_a_csvpath"},
+        inline=inl, class_fields=cf, macros=MACROS, returns="none", native={"skip": True},
+        property_clauses={"its_manager_holds_the_configured_policy": "C05", "collects_into_the_given_collector": "C05"}))
+    SP = "self._csvpath._config._csvpath_errors_policy"
+    cs.append(Contract(
+        target=f"{ERR}::ErrorHandler.handle_error", variant="for_a_csvpath",
+        types={"ex": "obj", "ex.json": "val", "ex.datum": "val", "ex.message": "val", "ex.trace": "val", "ex.source": "val",
+               "self._csvpath": "obj:CsvPath", "self._csvpaths": "none", "self._error_collector": "obj:CsvPath", "self._error_collector._error_collector": "none",
+               "self._error_collector._errors": "list[val]", "self._ecm": "obj:ErrorCommsManager",
+               "self._csvpath._line_monitor": "obj:LineMonitor", "self._csvpath._line_monitor._physical_line_number": "int",
+               "self._csvpath.scanner": "obj:Scanner", "self._csvpath.match": "val"},
+        requires=[f"self._ecm._policy == {SP}", "self._csvpath._line_monitor._physical_line_number >= 0"],
+        may_alias=[("self._error_collector", "self._csvpath")],
+        modifies=["self._csvpath._is_valid", "self._csvpath.stopped", "self._csvpath.g_printed", "self._error_collector._errors"],
+        raises={"MatchException": {"when": "do_raise()", "exact": True}},
+        ensures={"acts_on_the_configured_policy_fail": "self._csvpath._is_valid == (old(self._csvpath._is_valid) and not do_fail())",
+                 "acts_on_the_configured_policy_stop": "self._csvpath.stopped == (old(self._csvpath.stopped) or do_stop())",
+                 "one_record_iff_collect": f"len(self._error_collector._errors) == len(old(self._error_collector._errors)) + (1 if 'collect' in {SP} else 0)"},
+        covers={"fails_under_a_policy_with_fail": f"'fail' in {SP} and old(self._csvpath._is_valid) and not self._csvpath._is_valid"},
+        inline=INLINE_PROPS + inl + ["ErrorHandler.logger"], class_fields={**cf, "LineMonitor": {"_physical_line_number": "optint"}, "Scanner": {"filename": "optstr"}},
+        macros=MACROS, returns="none", native={"skip": True},
+        property_clauses={"acts_on_the_configured_policy_fail": "C05,C04", "acts_on_the_configured_policy_stop": "C05", "one_record_iff_collect": "C05",
+                          "raises:MatchException.must": "C05", "raises:MatchException.only_when": "C05"},
+        doc={"acts_on_the_configured_policy_fail": "C05: 'exactly the configured error policy decides' -- the policy _handle_if acts on is the csvpath's configured one"}))
+    cs.append(Contract(
+        target="csvpath/matching/productions/expression.py::Expression.handle_errors_if", variant="body",
+        types={"self.errors": "objlist[MatchException]", "self.matcher": "obj:Matcher", "self.matcher.csvpath": "obj:CsvPath",
+               "self.matcher.csvpath._error_collector": "none", "self.matcher.csvpath._errors": "list[val]",
+               "self.matcher.csvpath._line_monitor": "obj:LineMonitor", "self.matcher.csvpath._line_monitor._physical_line_number": "int",
+               "self.matcher.csvpath.scanner": "obj:Scanner", "self.matcher.csvpath.match": "val"},
+        requires=["self.matcher.csvpath._line_monitor._physical_line_number >= 0"],
+        modifies=["self.errors", "self.matcher.csvpath._is_valid", "self.matcher.csvpath.stopped", "self.matcher.csvpath.g_printed", "self.matcher.csvpath._errors"],
+        raises={"MatchException": {"when": "True", "exact": False}},
+        ensures={"the_queue_is_emptied": "len(self.errors) == 0",
+                 "one_record_per_trapped_error_iff_collect": "len(self.matcher.csvpath._errors) == len(old(self.matcher.csvpath._errors)) + "
+                                                             "(len(old(self.errors)) if 'collect' in self.matcher.csvpath._config._csvpath_errors_policy else 0)"},
+        invariants={0: ["len(self.matcher.csvpath._errors) == len(old(self.matcher.csvpath._errors)) + (_i0 if 'collect' in self.matcher.csvpath._config._csvpath_errors_policy else 0)",
+                        "self.matcher.csvpath._line_monitor._physical_line_number >= 0"]},
+        loop_havoc={0: ["self.matcher.csvpath._is_valid", "self.matcher.csvpath.stopped", "self.matcher.csvpath.g_printed", "self.matcher.csvpath._errors"]},
+        callee_variants={"ErrorHandler.__init__": "for_a_csvpath", "ErrorHandler.handle_error": "for_a_csvpath"},
+        inline=inl, class_fields={**cf, "LineMonitor": {"_physical_line_number": "optint"}, "Scanner": {"filename": "optstr"},
+                                  "MatchException": {"json": "val", "datum": "val", "message": "val", "trace": "val", "source": "val"}},
+        macros=MACROS, returns="none", native={"skip": True},
+        property_clauses={"the_queue_is_emptied": "C05", "one_record_per_trapped_error_iff_collect": "C05"}))
+    return cs
 
 
 def clear_errors_contracts():
@@ -152,5 +221,8 @@ LEVEL = "proof"
 EXPLANATION = ("The five observable effects of error handling are postconditions (normal and exceptional exits) on the real "
                "ErrorHandler._handle_if for a symbolic policy list and symbolic validation-mode overrides; ErrorCommsManager.do_i_* and "
                "ValidationMode.set_* are proved against the override-else-policy rule; attribute safety makes a missing attribute "
-               "(the historic 'quiet' defect) a failed no_unexpected_exception obligation.")
+               "(the historic 'quiet' defect) a failed no_unexpected_exception obligation. The way from a trapped error to _handle_if is under contract "
+               "link by link: Matcher.matches calls clear_errors on every exit, clear_errors asks every expression (whatever the state of the run), "
+               "Expression.handle_errors_if empties its queue through a handler made for this csvpath, ErrorHandler.handle_error builds the record "
+               "(with the physical line, 0 included) and calls _handle_if with the csvpath's configured policy.")
 ASSUMPTIONS = ["CsvPath.print is an [A] interface contract here (its loop over printers is under contract in C16)"]
